@@ -29,6 +29,8 @@ type Engine struct {
 	fnByKey     map[string]*ssa.Function
 	loadSecs    float64
 	copyMethods map[string]*ssa.Function
+	assumeKindInv bool
+	privMemo    map[*ssa.Alloc]bool
 }
 
 const contractFileName = "zz_contracts_verif.go"
@@ -59,7 +61,7 @@ func LoadEngine(repo string, patterns []string, overlay map[string][]byte) (*Eng
 	prog, spkgs := ssautil.Packages(pkgs, ssa.GlobalDebug)
 	prog.Build()
 	e := &Engine{repo: repo, pkgs: pkgs, prog: prog, spkgs: spkgs, sorts: NewSorts(), contracts: NewContractSet(),
-		compSeen: map[string]Sort{}, effMemo: map[string]*effects{}, inlineLimit: 60, fnByKey: map[string]*ssa.Function{}}
+		compSeen: map[string]Sort{}, effMemo: map[string]*effects{}, privMemo: map[*ssa.Alloc]bool{}, inlineLimit: 60, fnByKey: map[string]*ssa.Function{}}
 	for _, p := range pkgs {
 		if p.Module != nil {
 			e.modulePath = p.Module.Path
